@@ -178,6 +178,35 @@ def _parse_scen(what, N, L, fixed, chunk, t_end, tag, sites):
         if len(out['samples']) < 1:
             out['samples'].append({'accepted_input_prefix': inp(ex.model())[:24], 'accepted_input': inp(ex.model())})
 
+        if what == 'SecretKey' and L == 1 + (2 * N * (6 if N == 512 else 5) + 8 * N) // 8:
+            # the reserved minimum value (1 0...0) of a secret-key field must not occur in an accepted string - also where a parser reads a
+            # section without going through deserialize_field_element (re-encoding alone would not show it: -2^(w-1) re-encodes to itself)
+            w_ = 6 if N == 512 else 5
+            conds = []
+            for sec, (wd, base) in enumerate(((w_, 8), (w_, 8 + N * w_), (8, 8 + 2 * N * w_))):
+                for k_ in range(N):
+                    o = base + k_ * wd
+                    b0, b1 = o // 8, (o + wd - 1) // 8
+                    if all(xs[j].conc for j in range(b0, b1 + 1)):
+                        val = 0
+                        for j in range(b0, b1 + 1): val = (val << 8) | (xs[j].t & 255)
+                        fld = (val >> (8 * (b1 - b0 + 1) - (o - 8 * b0) - wd)) & ((1 << wd) - 1)
+                        if fld == 1 << (wd - 1):
+                            conds.append((sec, k_, z3.BoolVal(True)))
+                        continue
+                    t_ = bvt(xs[b0]) if b0 == b1 else z3.Concat(*[bvt(xs[j]) for j in range(b0, b1 + 1)])
+                    hi = 8 * (b1 - b0 + 1) - (o - 8 * b0) - 1
+                    conds.append((sec, k_, z3.Extract(hi, hi - wd + 1, t_) == z3.BitVecVal(1 << (wd - 1), wd)))
+            for c0 in range(0, len(conds), 16):
+                grp = conds[c0:c0 + 16]
+                out['checks'] += 1
+                okr, _ = ex.check_local(z3.Or(*[c for _, _, c in grp]))
+                if okr:
+                    mr = ex.check(z3.Or(*[c for _, _, c in grp]))[1]
+                    which = [(('f', 'g', 'F')[sec], k_) for sec, k_, c in grp if z3.is_true(mr.eval(c, model_completion=True))]
+                    out['bad'].append({'kind': 'accepted secret key holds the reserved minimum value in field %s[%d]' % which[0] if which else 'accepted secret key holds a reserved field value', 'input': inp(mr)})
+                    break
+
         def on_tb(ex2, st2, rv2):
             by = list(rv2.e)
             out['checks'] += 1
@@ -352,7 +381,7 @@ def _roundtrip_scen(what, N, chunk, t_end, tag, window, sites):
 
 
 # ---------------------------------------------------------------------------------------------- Z_q tail of SecretKey::from_bytes
-def hadamard_scen(n, which='hadamard_div'):
+def hadamard_scen(n, which='hadamard_div', mul_contract=False):
     """contract of the summaries used for the Z_q tail of SecretKey::from_bytes: Polynomial::<Felt>::hadamard_div / hadamard_mul
     never panic and return n canonical elements, for ALL canonical operand vectors (incl. zero divisors). Real MIR of the generic
     Polynomial code and of Inverse::batch_inverse_or_zero; Felt::inverse_or_zero is summarised by its contract (C12, engine K)."""
@@ -374,6 +403,15 @@ def hadamard_scen(n, which='hadamard_div'):
         ex.assume(z3.If(at == 0, r.t == 0, z3.URem(z3.ZeroExt(32, at) * z3.ZeroExt(32, r.t), z3.BitVecVal(Q, 64)) == 1))
         return Agg('Felt', None, (r,))
     ex.over['<Felt as Inverse>::inverse_or_zero'] = ov_inv
+    if mul_contract:
+        # Felt multiplication by its contract (a canonical element; exactness is C12's): keeps this scenario independent of how Mul reduces
+        def ov_mul(ex, st, fr, args, info):
+            cnt = ex.user.setdefault('nmul', [0]); cnt[0] += 1
+            r = ex.new_input('mul%d' % cnt[0], 'u32')
+            ex.assume(z3.ULT(r.t, Q))
+            return Agg('Felt', None, (r,))
+        ex.over['<Felt as Mul>::mul'] = ov_mul
+    ex.deadline = time.time() + 600
     a = Agg('Polynomial', None, (Seq('vec', felts('a')),)); b = Agg('Polynomial', None, (Seq('vec', felts('b')),))
     out = {'ret': 0, 'bad': []}
 
